@@ -42,6 +42,33 @@ def convert_case(draw):
             "k": draw(st.sampled_from([None, 2.0, 10.0, 0.25]))}      # target given as the Quantity k*v
 
 
+def _system_powers():
+    out = []
+    for sym in sorted(k for k in R.ATOM if k.startswith("#")):
+        for n in (1, 2, 3, -1, -2):
+            try:
+                dim = tuple(R.evaluate(G.atom("", sym, n, 1))[2])
+            except Exception:
+                continue
+            if dim in set(G.DIMS):
+                out.append((sym, n, dim))
+    return out
+
+
+SYSTEM_POWERS = _system_powers()
+
+
+@st.composite
+def system_case(draw):
+    """units of the unit systems (#CLEN, #SMAS ...) raised to powers, converted into ordinary expressions of that dimension"""
+    sym, n, dim = draw(st.sampled_from(SYSTEM_POWERS))
+    u = G.atom("", sym, n, 1)
+    if draw(st.booleans()):
+        u = ["*", u, draw(G.expr_of_dim(R.ZERO))]
+    return {"kind": "convert", "u": u, "v": draw(G.expr_of_dim(dim)), "w": draw(G.expr_of_dim(dim)),
+            "x": draw(G.magnitudes()), "k": None}
+
+
 RECIP_DIMS = [d for d in G.NONZERO_DIMS]
 
 
@@ -168,6 +195,7 @@ def strategies(tier):
         "to_none": (to_none_case(), 200, 4000),
         "rankine": (rankine_case(), 200, 4000),
         "convert": (convert_case(), 2500, 60000),
+        "system": (system_case(), 400, 8000),
         "recip": (recip_case(), 600, 15000),
         "rad": (rad_case(), 150, 2000),
         "refuse": (refuse_case(), 1000, 25000),
